@@ -94,6 +94,38 @@ func dump(n *ip.CIDRNode) string {
 	return "(" + tokOf(n.VerifCIDR()) + "=" + d + "," + dump(n.VerifChild(0)) + "," + dump(n.VerifChild(1)) + ")"
 }
 
+// descTerminates replays the control flow of CIDRTrie.ClosestDescendants through the read-only
+// accessors (using the real Contains/NthBit) with a depth bound.
+func descTerminates(t *ip.CIDRTrie, parent ip.CIDR, depth int) bool {
+	if depth > 300 {
+		return false
+	}
+	n := t.VerifRoot()
+	for steps := 0; n != nil; steps++ {
+		if steps > 300 {
+			return false
+		}
+		if !n.VerifCIDR().Contains(parent.Addr()) {
+			return true
+		}
+		if parent == n.VerifCIDR() {
+			break
+		}
+		n = n.VerifChild(parent.Addr().NthBit(uint(n.VerifCIDR().Prefix() + 1)))
+	}
+	if n == nil {
+		return true
+	}
+	for i := 0; i < 2; i++ {
+		if c := n.VerifChild(i); c != nil && c.VerifData() == nil {
+			if !descTerminates(t, c.VerifCIDR(), depth+1) {
+				return false
+			}
+		}
+	}
+	return true
+}
+
 func b01(b bool) string {
 	if b {
 		return "1"
@@ -246,6 +278,12 @@ func exec(h *rt.H, s *state, op string) (out string) {
 		}
 		return b01(got)
 	case "desc":
+		// Guard: on a structurally broken trie the real ClosestDescendants (which re-walks from the root
+		// for every data-less child) recurses forever and the fatal stack overflow would lose the replay.
+		if !descTerminates(s.t, cidrOf(s.w, w[1]), 0) {
+			h.OracleFail("desc-nonterminating", "ClosestDescendants would recurse forever (walk from the root to a child's CIDR does not reach that child)", s.input(op))
+			return "nonterminating"
+		}
 		ds := s.t.ClosestDescendants(nil, cidrOf(s.w, w[1]))
 		q := pfxOf(s.w, w[1])
 		var got []string
